@@ -7,10 +7,12 @@ from cminx.config import Settings
 MODE = @@MODE@@        # "indent" | "crlf"
 N = @@N@@              # body lines
 L = @@L@@              # chars per body line
-K = @@K@@              # indent length of the two layouts (each char space or tab, symbolic)
+K = @@K@@              # indent width of the first layout (each char space or tab, symbolic)
+K2 = @@K2@@            # indent width of the second layout (re-indentation may change the width, e.g. to 0)
+LENS = @@LENS@@          # length of every body line; 0 = a physically empty line (editors do not indent empty lines when re-indenting)
 LEADER = @@LEADER@@    # body lines carry the '# ' leader (canonical) or are arbitrary text
 KIND = @@KIND@@
-NCP = @@NCP@@          # N * L
+NCP = @@NCP@@          # sum(LENS)
 hc.shim_re("real")
 hc.quiet_logging()
 
@@ -18,7 +20,10 @@ hc.quiet_logging()
 def _block(ind, texts, eol):
     s = "#[[["
     for t in texts:
-        s = s + eol + ind + (("# " + t) if LEADER else t)
+        if t == "":
+            s = s + eol                      # a blank line stays blank whatever the block's indentation
+        else:
+            s = s + eol + ind + (("# " + t) if LEADER else t)
     return s + eol + ind + "#]]"
 
 
@@ -36,11 +41,11 @@ def check(cps: $$CPS$$, i1: $$IT$$, i2: $$IT$$) -> bool:
     post: _
     """
     pc = hc.Pieces(cps)
-    texts = [pc.take(L) for _ in range(N)]
+    texts = [pc.take(n) for n in LENS]
     for t in texts:
         if "]]" in t:
             return True
-    a = hc.S(i1[:K]); b = hc.S(i2[:K])
+    a = hc.S(i1[:K]); b = hc.S(i2[:K2])
     if MODE == "indent":
         b1 = _block(a, texts, chr(10)); b2 = _block(b, texts, chr(10))
         p1 = prog.real_page(prog.documented_unit(KIND, b1, "", "1"), Settings())
